@@ -583,8 +583,26 @@ Proof. unfold lof, close_out. rewrite zlen_app. reflexivity. Qed.
 
 (* ------------------------------------------------------------------ PRINT# / LINE INPUT# *)
 
+Lemma lseq_facts p a t : lseq_ok p (a :: t) = true ->
+  a =? NONE = false /\ a =? EOFB = false /\ (negb (a =? CR) || (p =? LF)) = true /\ lseq_ok a t = true.
+Proof.
+  cbn [lseq_ok]. intro H. apply andb_true_iff in H as [H Hl]. apply andb_true_iff in H as [H Hs].
+  apply andb_true_iff in H as [Hb He]. apply negb_true_iff in He.
+  unfold byteb in Hb. apply andb_true_iff in Hb as [Hb _].
+  repeat split; try assumption. unfold NONE. lia.
+Qed.
+
+(* a byte of a line: a CR only after an LF, and then it is neither a line end nor merged with a following LF *)
+Lemma read_one_seq a t cu pr : a =? EOFB = false -> a =? NONE = false ->
+  (negb (a =? CR) || (cu =? LF)) = true ->
+  read_one (mkR (a :: t) cu pr) = (a, mkR t a cu) /\ ((a =? CR) && negb (cu =? LF)) = false.
+Proof.
+  intros He Hn Hs. unfold read_one. rewrite read1_cons by exact He. rewrite Hn. cbn [prev].
+  destruct (a =? CR); cbn [negb orb andb] in *; [rewrite Hs; cbn; auto | auto].
+Qed.
+
 Lemma read_line_loop_ok : forall l acc eol more cu pr fuel,
-  forallb lchar l = true -> zlen acc + zlen l <= 254 -> eol_ok eol more ->
+  lseq_ok cu l = true -> zlen acc + zlen l <= 254 -> eol_ok eol more ->
   last l cu =? LF = false -> (length l + 1 <= fuel)%nat ->
   read_line_loop fuel (mkR (l ++ eol ++ more) cu pr) acc = Ok (acc ++ l, CR, mkR more CR (last l cu)).
 Proof.
@@ -593,10 +611,10 @@ Proof.
     cbn [read_line_loop]. rewrite read_one_eol by assumption.
     cbn [prev]. rewrite Hlast. rewrite app_nil_r. reflexivity.
   - destruct fuel as [|f]; [cbn in Hfuel; lia|].
-    cbn [forallb] in Hl. apply andb_true_iff in Hl as [Ha Hl].
-    destruct (lchar_facts a Ha) as (Han & Hae & Hacr).
-    cbn [app read_line_loop]. rewrite read_one_plain by assumption.
-    rewrite Han, Hacr. cbn [orb andb].
+    destruct (lseq_facts _ _ _ Hl) as (Han & Hae & Hs & Hl').
+    destruct (read_one_seq a (l ++ eol ++ more) cu pr Hae Han Hs) as [Hr Hbrk].
+    cbn [app read_line_loop]. rewrite Hr. cbn [prev].
+    rewrite Han, Hbrk. cbn [orb].
     rewrite zlen_cons in Hlen. pose proof (zlen_nonneg l) as Hl0. pose proof (zlen_nonneg acc) as Hacc0.
     assert (H255 : (zlen (acc ++ [a]) =? 255) = false).
     { rewrite zlen_app, zlen_cons, zlen_nil. apply Z.eqb_neq. lia. }
@@ -608,7 +626,7 @@ Proof.
 Qed.
 
 Lemma line_input_ok l eol more cu pr :
-  forallb lchar l = true -> zlen l <= 254 -> eol_ok eol more -> last l cu =? LF = false ->
+  lseq_ok cu l = true -> zlen l <= 254 -> eol_ok eol more -> last l cu =? LF = false ->
   line_input (mkR (l ++ eol ++ more) cu pr) = Ok (l, mkR more CR (last l cu)).
 Proof.
   intros Hl Hlen Heol Hlast. unfold line_input, read_line. cbn [rest].
@@ -617,11 +635,22 @@ Proof.
   - rewrite app_length. lia.
 Qed.
 
+Lemma lseq_start cu l : cu =? LF = false -> lseq_ok cu l = lseq_ok NONE l.
+Proof. intro H. destruct l as [|a t]; [reflexivity|]. cbn [lseq_ok]. rewrite H. reflexivity. Qed.
+
+Lemma lchar_lseq : forall l p, forallb lchar l = true -> lseq_ok p l = true.
+Proof.
+  induction l as [|a t IH]; intros p H; [reflexivity|]. cbn [forallb] in H.
+  apply andb_true_iff in H as [Ha Ht]. cbn [lseq_ok]. rewrite (IH a Ht).
+  unfold lchar in Ha. apply andb_true_iff in Ha as [Ha He]. apply andb_true_iff in Ha as [Hb Hc].
+  rewrite Hb, He, Hc. reflexivity.
+Qed.
+
 Definition lstream (eol : list Z) (ls : list (list Z)) : list Z := concat (map (fun l => l ++ eol) ls).
 
 (* what the reader needs of a line *)
 Definition line_rd (l : list Z) : bool :=
-  forallb lchar l && (zlen l <=? 254) && negb (last l NONE =? LF).
+  lseq_ok NONE l && (zlen l <=? 254) && negb (last l NONE =? LF).
 Definition lines_eol_ok (eol : list Z) (ls : list (list Z)) : Prop :=
   eol = [CR; LF] \/ (eol = [CR] /\ Forall (fun l => memZ LF l = false) ls).
 
@@ -644,8 +673,7 @@ Proof.
   destruct l as [|a l].
   - destruct Hg; subst eol; reflexivity.
   - unfold line_rd in Hl. apply andb_true_iff in Hl as [Hl _]. apply andb_true_iff in Hl as [Hl _].
-    cbn [forallb] in Hl. apply andb_true_iff in Hl as [Ha _].
-    destruct (lchar_facts a Ha) as (Han & Hae & _).
+    destruct (lseq_facts _ _ _ Hl) as (Han & Hae & _ & _).
     unfold eof, peek1. cbn [app rest]. rewrite Han, Hae. reflexivity.
 Qed.
 
@@ -667,7 +695,8 @@ Proof.
   apply Z.leb_le in Hlen. apply negb_true_iff in Hlast.
   assert (Hlast' : last l cu =? LF = false).
   { destruct l as [|a l]; [exact Hcu|]. rewrite last_cons in Hlast |- *. exact Hlast. }
-  rewrite line_input_ok; try assumption; [| apply eol_ok_lstream; exact Heol'].
+  rewrite line_input_ok; try assumption;
+    [| rewrite lseq_start by exact Hcu; exact Hch | apply eol_ok_lstream; exact Heol'].
   cbn [bind]. rewrite IH; [| exact Hr | exact Heol' | reflexivity].
   cbn [bind]. rewrite eof_lstream by assumption.
   destruct r as [|x r']; [reflexivity|].
@@ -698,8 +727,11 @@ Qed.
 
 Lemma line_ok_rd soft l : line_ok soft l = true -> line_rd l = true.
 Proof.
-  unfold line_ok, line_rd. intro H. apply andb_true_iff in H as [H1 H2]. rewrite H1. cbn [andb].
-  destruct soft; [exact H2|]. apply negb_true_iff in H2. rewrite (nolf_last l H2). reflexivity.
+  unfold line_ok, line_rd. intro H. apply andb_true_iff in H as [H1 H2]. rewrite H1.
+  destruct soft.
+  - apply andb_true_iff in H2 as [H2 H3]. rewrite H2, H3. reflexivity.
+  - apply andb_true_iff in H2 as [H2 H3]. apply negb_true_iff in H3.
+    rewrite (lchar_lseq l NONE H2), (nolf_last l H3). reflexivity.
 Qed.
 
 Lemma print_lines_bytes ls : concat (map print_line ls) = lstream [CR; LF] ls.
@@ -716,7 +748,8 @@ Proof.
   - apply read_lines_stream; [left; reflexivity | exact Hrd | left; reflexivity | reflexivity].
   - assert (Hnolf : Forall (fun l => memZ LF l = false) ls).
     { apply Forall_forall. intros l Hin. rewrite forallb_forall in Hok. specialize (Hok l Hin).
-      unfold line_ok in Hok. apply andb_true_iff in Hok as [_ Hok]. apply negb_true_iff in Hok. exact Hok. }
+      unfold line_ok in Hok. apply andb_true_iff in Hok as [_ Hok]. apply andb_true_iff in Hok as [_ Hok].
+      apply negb_true_iff in Hok. exact Hok. }
     rewrite nlfilter_lstream by exact Hnolf.
     apply read_lines_stream; [right; reflexivity | exact Hrd | right; split; [reflexivity | exact Hnolf]
                              | reflexivity].
@@ -894,50 +927,84 @@ Qed.
 Lemma exec_app soft a b s : exec soft (a ++ b) s = exec soft b (exec soft a s).
 Proof. revert s. induction a as [|o a IH]; intro s; [reflexivity|]. cbn [app exec]. apply IH. Qed.
 
-Lemma exec_writes soft stmts d f :
-  exec soft (map OpWrite stmts) (mkF d (HOut f)) =
-  mkF d (HOut (fold_left (fun f st => fwrite f (write_stmt st)) stmts f)).
+(* at WIDTH 255 (the default) the writer only appends *)
+Lemma wwrite_255 w s b : wwidth w = 255 -> wwrite w s b = put_bytes w s.
 Proof.
-  revert f. induction stmts as [|st r IH]; intro f; [reflexivity|].
-  cbn [map exec step hnd snd disk fold_left]. apply IH.
+  intro H. unfold wwrite. destruct (first_width s) as [sw nl]. rewrite H.
+  change (255 =? 255) with true. cbn [negb]. rewrite andb_false_r. reflexivity.
 Qed.
 
-Lemma exec_prints soft ls d f :
-  exec soft (map OpPrint ls) (mkF d (HOut f)) =
-  mkF d (HOut (fold_left (fun f l => fwrite f (print_line l)) ls f)).
+Lemma wwrite_line_255 w s : wwidth w = 255 ->
+  wbytes (wwrite_line w s) = wbytes w ++ s ++ [CR; LF] /\ wwidth (wwrite_line w s) = 255.
+Proof. intro H. unfold wwrite_line. rewrite wwrite_255 by exact H. split; [reflexivity | exact H]. Qed.
+
+Lemma exec_writes soft stmts d : forall w, wwidth w = 255 ->
+  exists w', exec soft (map OpWrite stmts) (mkF d (HOut w)) = mkF d (HOut w') /\ wwidth w' = 255 /\
+             wbytes w' = fold_left (fun f st => fwrite f (write_stmt st)) stmts (wbytes w).
 Proof.
-  revert f. induction ls as [|l r IH]; intro f; [reflexivity|].
-  cbn [map exec step hnd snd disk fold_left]. apply IH.
+  induction stmts as [|st r IH]; intros w Hw; [exists w; auto|].
+  cbn [map exec step hnd snd disk fold_left].
+  destruct (wwrite_line_255 w (join_comma (map fmt_item st)) Hw) as [Hb Hw'].
+  destruct (IH _ Hw') as (w' & He & Hw2 & Hb2).
+  exists w'. split; [exact He|]. split; [exact Hw2|]. rewrite Hb2, Hb. reflexivity.
+Qed.
+
+Lemma pprint_single_255 w l : wwidth w = 255 ->
+  wbytes (pprint w [PV l]) = wbytes w ++ print_line l /\ wwidth (pprint w [PV l]) = 255.
+Proof.
+  intro H. unfold pprint. cbn [pformat]. 
+  assert (H1 : wwidth (wwrite w l true) = 255) by (rewrite wwrite_255 by exact H; exact H).
+  destruct (wwrite_line_255 _ [] H1) as [Hb Hw]. split; [|exact Hw].
+  rewrite Hb. rewrite wwrite_255 by exact H. cbn [put_bytes wbytes]. unfold print_line, line_bytes.
+  rewrite <- app_assoc. reflexivity.
+Qed.
+
+Lemma exec_prints soft ls d : forall w, wwidth w = 255 ->
+  exists w', exec soft (map OpPrint ls) (mkF d (HOut w)) = mkF d (HOut w') /\ wwidth w' = 255 /\
+             wbytes w' = fold_left (fun f l => fwrite f (print_line l)) ls (wbytes w).
+Proof.
+  induction ls as [|l r IH]; intros w Hw; [exists w; auto|].
+  cbn [map exec step hnd snd disk fold_left].
+  destruct (pprint_single_255 w l Hw) as [Hb Hw'].
+  destruct (IH _ Hw') as (w' & He & Hw2 & Hb2).
+  exists w'. split; [exact He|]. split; [exact Hw2|]. rewrite Hb2, Hb. reflexivity.
 Qed.
 
 Theorem script_output_session soft stmts d :
   exec soft (OpOpenO :: map OpWrite stmts ++ [OpClose]) (mkF d HClosed) =
   mkF (Some (write_file stmts)) HClosed.
 Proof.
-  cbn [exec step hnd snd]. rewrite exec_app, exec_writes. reflexivity.
+  cbn [exec step hnd snd]. rewrite exec_app.
+  destruct (exec_writes soft stmts (Some []) (open_w open_output) eq_refl) as (w' & He & _ & Hb).
+  rewrite He. cbn [exec step hnd snd]. rewrite Hb. reflexivity.
 Qed.
 
 Theorem script_append_session soft stmts old :
   exec soft (OpOpenA :: map OpWrite stmts ++ [OpClose]) (mkF (Some old) HClosed) =
   mkF (Some (append_file old stmts)) HClosed.
 Proof.
-  cbn [exec step hnd snd disk]. rewrite exec_app, exec_writes. reflexivity.
+  cbn [exec step hnd snd disk]. rewrite exec_app.
+  destruct (exec_writes soft stmts (Some (open_append old)) (open_w (open_append old)) eq_refl)
+    as (w' & He & _ & Hb).
+  rewrite He. cbn [exec step hnd snd]. rewrite Hb. reflexivity.
 Qed.
 
 Theorem script_print_session soft ls d :
   exec soft (OpOpenO :: map OpPrint ls ++ [OpClose]) (mkF d HClosed) =
   mkF (Some (print_file ls)) HClosed.
 Proof.
-  cbn [exec step hnd snd]. rewrite exec_app, exec_prints. reflexivity.
+  cbn [exec step hnd snd]. rewrite exec_app.
+  destruct (exec_prints soft ls (Some []) (open_w open_output) eq_refl) as (w' & He & _ & Hb).
+  rewrite He. cbn [exec step hnd snd]. rewrite Hb. reflexivity.
 Qed.
 
 Theorem script_open_input soft d :
-  step soft OpOpenI (mkF (Some d) HClosed) = ([0], mkF (Some d) (HIn d (open_input soft d))).
+  step soft OpOpenI (mkF (Some d) HClosed) = ([0], mkF (Some d) (HIn d (open_input soft d) false)).
 Proof. reflexivity. Qed.
 
-Theorem script_lof soft d f raw r :
-  fst (step soft OpLof (mkF d (HOut f))) = [0; zlen f] /\
-  fst (step soft OpLof (mkF d (HIn raw r))) = [0; zlen raw].
+Theorem script_lof soft d w raw r att :
+  fst (step soft OpLof (mkF d (HOut w))) = [0; zlen (wbytes w)] /\
+  fst (step soft OpLof (mkF d (HIn raw r att))) = [0; zlen raw].
 Proof. split; reflexivity. Qed.
 
 (* ------------------------------------------------------------------ the boundary of the classes (witnesses) *)
@@ -975,3 +1042,243 @@ Lemma class_boundary_witnesses :
   (* a CR splits a line *)
   read_lines 2 (open_input true (print_file [[97; 13; 98]])) = Ok [([97], false); ([98], true)].
 Proof. vm_compute. repeat split; reflexivity. Qed.
+
+(* ------------------------------------------------------------------ LOC: 128-byte blocks *)
+
+Lemma loc_out_spec f : 128 * loc_out f <= zlen f < 128 * loc_out f + 128.
+Proof. unfold loc_out. pose proof (Z.div_mod (zlen f) 128). pose proof (Z.mod_pos_bound (zlen f) 128). lia. Qed.
+
+(* blocks n = number of 128-byte blocks needed for n bytes, at least 1 *)
+Lemma blocks_spec n : 0 <= n ->
+  1 <= blocks n /\ (n <= 128 -> blocks n = 1) /\ (128 < n -> 128 * (blocks n - 1) < n <= 128 * blocks n).
+Proof.
+  intro Hn. unfold blocks.
+  pose proof (Z.div_mod (127 + n) 128). pose proof (Z.mod_pos_bound (127 + n) 128). lia.
+Qed.
+
+Lemma loc_in_soft raw r att : loc_in true raw r att = blocks (zlen raw - zlen (rest r)).
+Proof. reflexivity. Qed.
+
+(* raw_skip finds the raw prefix that the NewlineWrapper turns into the first k bytes *)
+Lemma raw_skip_spec : forall raw lst k pos, 0 <= k ->
+  exists p lst', raw_skip raw lst k pos = (pos + Z.of_nat p, lst', skipn p raw) /\
+    (p <= length raw)%nat /\
+    nlfilter lst (firstn p raw) = firstn (Z.to_nat k) (nlfilter lst raw).
+Proof.
+  induction raw as [|b r IH]; intros lst k pos Hk.
+  - exists 0%nat, lst. cbn. rewrite Z.add_0_r. repeat split; [lia | destruct (Z.to_nat k); reflexivity].
+  - cbn [raw_skip]. destruct (k <=? 0) eqn:Hk0.
+    + apply Z.leb_le in Hk0. assert (k = 0) by lia. subst k.
+      exists 0%nat, lst. cbn [skipn firstn nlfilter Z.of_nat Z.to_nat]. rewrite Z.add_0_r.
+      repeat split. cbn. lia.
+    + apply Z.leb_gt in Hk0. destruct ((lst =? CR) && (b =? LF)) eqn:Hab.
+      * destruct (IH b k (pos + 1) Hk) as (p & lst' & He & Hp & Hf).
+        exists (S p), lst'. rewrite He. cbn [skipn firstn length nlfilter]. rewrite Hab.
+        repeat split; [f_equal; f_equal; lia | lia | exact Hf].
+      * destruct (IH b (k - 1) (pos + 1)) as (p & lst' & He & Hp & Hf); [lia|].
+        exists (S p), lst'. rewrite He. cbn [skipn firstn length nlfilter]. rewrite Hab.
+        repeat split; [f_equal; f_equal; lia | lia |].
+        rewrite Hf. replace (Z.to_nat k) with (S (Z.to_nat (k - 1))) by lia. reflexivity.
+Qed.
+
+(* LOC on an input file behind the NewlineWrapper: the blocks of the raw prefix consumed so far, where one
+   absorbed LF may already be counted *)
+Theorem loc_in_default raw r att : zlen (rest r) <= zlen (nlfilter NONE raw) ->
+  exists p, (p <= length raw)%nat /\
+    nlfilter NONE (firstn p raw) =
+      firstn (Z.to_nat (zlen (nlfilter NONE raw) - zlen (rest r))) (nlfilter NONE raw) /\
+    (loc_in false raw r att = blocks (Z.of_nat p) \/ loc_in false raw r att = blocks (Z.of_nat p + 1)).
+Proof.
+  intro Hle. unfold loc_in, stream_of.
+  destruct (raw_skip_spec raw NONE (zlen (nlfilter NONE raw) - zlen (rest r)) 0) as (p & lst' & He & Hp & Hf);
+    [lia|].
+  exists p. split; [exact Hp|]. split; [exact Hf|]. rewrite He. rewrite Z.add_0_l.
+  destruct (skipn p raw) as [|b rr]; [left; rewrite Z.add_0_r; reflexivity|].
+  destruct (att && (lst' =? CR) && (b =? LF)); [right | left; rewrite Z.add_0_r]; reflexivity.
+Qed.
+
+(* ------------------------------------------------------------------ INPUT$ *)
+
+Lemma cut_eof_noeof l : memZ EOFB l = false -> cut_eof l = l.
+Proof.
+  induction l as [|b t IH]; [reflexivity|]. cbn [memZ cut_eof]. intro H.
+  apply orb_false_iff in H as [Hb Ht]. rewrite Z.eqb_sym in Hb. rewrite Hb, (IH Ht). reflexivity.
+Qed.
+
+Lemma cut_eof_short l : memZ EOFB l = true -> (length (cut_eof l) < length l)%nat.
+Proof.
+  induction l as [|b t IH]; [discriminate|]. cbn [memZ cut_eof length]. intro H.
+  destruct (b =? EOFB) eqn:Hb; [cbn; lia|].
+  rewrite Z.eqb_sym in H. rewrite Hb in H. cbn [orb] in H. specialize (IH H). cbn [length]. lia.
+Qed.
+
+Lemma cut_eof_le l : (length (cut_eof l) <= length l)%nat.
+Proof. induction l as [|b t IH]; [cbn; lia|]. cbn [cut_eof]. destruct (b =? EOFB); cbn [length]; lia. Qed.
+
+(* INPUT$(n,#f) returns exactly the next n bytes, whatever they are, when no 1A is among them ... *)
+Theorem input_str_ok n r : (n <= length (rest r))%nat -> memZ EOFB (firstn n (rest r)) = false ->
+  fst (input_str n r) = Ok (firstn n (rest r)) /\ rest (snd (input_str n r)) = skipn n (rest r).
+Proof.
+  intros Hn He. unfold input_str, read_n. rewrite (cut_eof_noeof _ He).
+  rewrite firstn_length_le by exact Hn. rewrite Nat.ltb_irrefl. split; reflexivity.
+Qed.
+
+(* ... and Input past end when fewer than n bytes precede the 1A or the end of the file *)
+Theorem input_str_past_end n r :
+  (length (rest r) < n)%nat \/ memZ EOFB (firstn n (rest r)) = true ->
+  fst (input_str n r) = Err tf_err_INPUT_PAST_END.
+Proof.
+  intro H. unfold input_str, read_n.
+  assert (Hlt : (length (cut_eof (firstn n (rest r))) < n)%nat).
+  { destruct H as [H | H].
+    - pose proof (cut_eof_le (firstn n (rest r))) as Hc. rewrite firstn_length in Hc. lia.
+    - pose proof (cut_eof_short _ H) as Hc. pose proof (firstn_le_length n (rest r)) as Hf.
+      rewrite firstn_length in Hc. lia. }
+  apply Nat.ltb_lt in Hlt. rewrite Hlt. reflexivity.
+Qed.
+
+(* ------------------------------------------------------------------ PRINT# with several expressions *)
+
+(* the text a PRINT# statement produces at WIDTH 255, starting in column col *)
+Definition zone_pad (col : Z) : list Z := repeat SPACE (Z.to_nat (1 + 14 * ((col - 1) / 14 + 1) - col)).
+Fixpoint ptext (col : Z) (es : list pelem) : list Z :=
+  match es with
+  | [] => []
+  | PV s :: r => s ++ ptext (fold_left col_step s col) r
+  | PSemi :: r => ptext col r
+  | PComma :: r => zone_pad col ++ ptext (fold_left col_step (zone_pad col) col) r
+  end.
+(* is the statement followed by a line break: its last element is a value (or there is none) *)
+Fixpoint pnl (es : list pelem) (nl : bool) : bool :=
+  match es with [] => nl | PV _ :: r => pnl r true | _ :: r => pnl r false end.
+
+Lemma pformat_255 : forall es w nl, wwidth w = 255 ->
+  wbytes (pformat w es nl) = wbytes w ++ ptext (wcol w) es ++ (if pnl es nl then [CR; LF] else []) /\
+  wwidth (pformat w es nl) = 255 /\ (pnl es nl = true -> wcol (pformat w es nl) = 1).
+Proof.
+  induction es as [|e r IH]; intros w nl Hw.
+  - cbn [pformat ptext pnl app]. destruct nl.
+    + unfold wwrite_line. rewrite wwrite_255 by exact Hw. cbn [put_bytes wbytes wwidth wcol app].
+      split; [reflexivity|]. split; [exact Hw|]. intros _. reflexivity.
+    + rewrite app_nil_r. split; [reflexivity|]. split; [exact Hw | discriminate].
+  - destruct e as [s | |]; cbn [pformat ptext pnl].
+    + rewrite wwrite_255 by exact Hw.
+      destruct (IH (put_bytes w s) true Hw) as (Hb & Hw' & Hc).
+      cbn [put_bytes wbytes wcol] in Hb. rewrite Hb. rewrite <- !app_assoc. auto.
+    + apply IH. exact Hw.
+    + assert (Hpc : print_comma w = put_bytes w (zone_pad (wcol w))).
+      { unfold print_comma. rewrite Hw. change (255 =? 255) with true. cbn [negb]. rewrite andb_false_r.
+        rewrite wwrite_255 by exact Hw. reflexivity. }
+      rewrite Hpc. destruct (IH (put_bytes w (zone_pad (wcol w))) false Hw) as (Hb & Hw' & Hc).
+      cbn [put_bytes wbytes wcol] in Hb. rewrite Hb. rewrite <- !app_assoc. auto.
+Qed.
+
+(* a session of PRINT# statements that all end in a value, at WIDTH 255: the file is the file of the lines
+   ptext 1 es, so LINE INPUT# reads exactly those lines back whenever they are in the class *)
+Definition pprint_session (stmts : list (list pelem)) : list Z :=
+  close_out (wbytes (fold_left pprint stmts (open_w open_output))).
+
+Lemma fold_pprint : forall stmts w, wwidth w = 255 -> wcol w = 1 ->
+  Forall (fun es => pnl es true = true) stmts ->
+  wbytes (fold_left pprint stmts w) = wbytes w ++ concat (map (fun es => print_line (ptext 1 es)) stmts).
+Proof.
+  induction stmts as [|es r IH]; intros w Hw Hc Hall.
+  - cbn. rewrite app_nil_r. reflexivity.
+  - inversion Hall as [|x y Hes Hr]; subst. cbn [fold_left map concat].
+    destruct (pformat_255 es w true Hw) as (Hb & Hw' & Hc'). fold (pprint w es) in Hb, Hw', Hc'.
+    rewrite IH; [| exact Hw' | exact (Hc' Hes) | exact Hr].
+    rewrite Hb, Hes, Hc. unfold print_line, line_bytes. cbn [app]. rewrite <- !app_assoc. reflexivity.
+Qed.
+
+Theorem pprint_session_lines stmts : Forall (fun es => pnl es true = true) stmts ->
+  pprint_session stmts = print_file (map (ptext 1) stmts).
+Proof.
+  intro H. unfold pprint_session. rewrite fold_pprint by (try reflexivity; exact H).
+  unfold print_file, open_output. rewrite print_session_bytes. cbn [open_w wbytes app].
+  unfold close_out. rewrite map_map. reflexivity.
+Qed.
+
+Theorem pprint_lineinput_roundtrip soft stmts : Forall (fun es => pnl es true = true) stmts ->
+  forallb (line_ok soft) (map (ptext 1) stmts) = true ->
+  read_lines (length stmts) (open_input soft (pprint_session stmts)) =
+  Ok (combine (map (ptext 1) stmts) (eof_flags (length stmts))).
+Proof.
+  intros H Hok. rewrite pprint_session_lines by exact H.
+  rewrite <- (map_length (ptext 1) stmts). apply print_lineinput_roundtrip. exact Hok.
+Qed.
+
+(* WIDTH#: a value is never split; at most one line break is put in front of it *)
+Theorem wwrite_no_split w s b :
+  wbytes (wwrite w s b) = wbytes w ++ s \/ wbytes (wwrite w s b) = wbytes w ++ [CR; LF] ++ s.
+Proof.
+  unfold wwrite. destruct (first_width s) as [sw nl].
+  destruct (b && negb (wwidth w =? 255) && negb (wcol w =? 1) && (wwidth w <? wcol w - 1 + sw) && negb nl).
+  - right. cbn [put_bytes wbytes]. rewrite <- app_assoc. reflexivity.
+  - left. reflexivity.
+Qed.
+
+(* ... and the break is only made when the value would not fit: col-1 + printable width > WIDTH *)
+Theorem wwrite_break_only_if_needed w s b :
+  wbytes (wwrite w s b) <> wbytes w ++ s ->
+  b = true /\ wwidth w <> 255 /\ wcol w <> 1 /\ wwidth w < wcol w - 1 + fst (first_width s).
+Proof.
+  unfold wwrite. destruct (first_width s) as [sw nl]. cbn [fst].
+  destruct (b && negb (wwidth w =? 255) && negb (wcol w =? 1) && (wwidth w <? wcol w - 1 + sw) && negb nl) eqn:E.
+  - intros _. repeat (apply andb_true_iff in E; destruct E as [E ?]).
+    repeat match goal with H : negb _ = true |- _ => apply negb_true_iff in H end.
+    repeat split; try assumption; try (apply Z.eqb_neq; assumption). apply Z.ltb_lt. assumption.
+  - intro H. exfalso. apply H. reflexivity.
+Qed.
+
+(* ------------------------------------------------------------------ line_ok is exact (necessity by sweep) *)
+
+Fixpoint all_lists (alpha : list Z) (n : nat) : list (list Z) :=
+  match n with
+  | O => [[]]
+  | S m => [] :: flat_map (fun l => map (fun a => a :: l) alpha) (all_lists alpha m)
+  end.
+
+Fixpoint lines_eqb (a b : list (list Z * bool)) : bool :=
+  match a, b with
+  | [], [] => true
+  | (x, e) :: a', (y, f) :: b' => PCB.lib.Harness.list_Z_eqb x y && Bool.eqb e f && lines_eqb a' b'
+  | _, _ => false
+  end.
+(* do these lines come back (with the right EOF flags)? *)
+Definition lines_roundtrip (soft : bool) (ls : list (list Z)) : bool :=
+  match read_lines (length ls) (open_input soft (print_file ls)) with
+  | Ok res => lines_eqb res (combine ls (eof_flags (length ls)))
+  | _ => false
+  end.
+
+(* one representative per byte class: ordinary byte, CR, LF, 1A *)
+Definition sweep_alpha : list Z := [97; CR; LF; EOFB].
+
+Lemma line_ok_exact_sweep1 :
+  forallb (fun l => Bool.eqb (lines_roundtrip true [l]) (line_ok true l)
+                    && Bool.eqb (lines_roundtrip false [l]) (line_ok false l))
+          (all_lists sweep_alpha 6) = true.
+Proof. vm_compute. reflexivity. Qed.
+
+Lemma line_ok_exact_sweep2 :
+  forallb (fun l1 => forallb (fun l2 =>
+     Bool.eqb (lines_roundtrip true [l1; l2]) (line_ok true l1 && line_ok true l2)
+     && Bool.eqb (lines_roundtrip false [l1; l2]) (line_ok false l1 && line_ok false l2))
+     (all_lists sweep_alpha 3)) (all_lists sweep_alpha 3) = true.
+Proof. vm_compute. reflexivity. Qed.
+
+Theorem line_ok_exact_upto6 soft l : In l (all_lists sweep_alpha 6) ->
+  lines_roundtrip soft [l] = line_ok soft l.
+Proof.
+  intro Hin. pose proof line_ok_exact_sweep1 as H. rewrite forallb_forall in H. specialize (H l Hin).
+  apply andb_true_iff in H as [H1 H2]. destruct soft; apply Bool.eqb_prop; assumption.
+Qed.
+
+Theorem line_ok_exact_pairs_upto3 soft l1 l2 :
+  In l1 (all_lists sweep_alpha 3) -> In l2 (all_lists sweep_alpha 3) ->
+  lines_roundtrip soft [l1; l2] = line_ok soft l1 && line_ok soft l2.
+Proof.
+  intros H1 H2. pose proof line_ok_exact_sweep2 as H. rewrite forallb_forall in H. specialize (H l1 H1).
+  rewrite forallb_forall in H. specialize (H l2 H2).
+  apply andb_true_iff in H as [Ha Hb]. destruct soft; apply Bool.eqb_prop; assumption.
+Qed.
